@@ -288,14 +288,68 @@ def read_registry():
     return out
 
 
+PAIR_ATTRS = ("_record", "_channels", "_bounding_record", "_bounding_channels")
+LAYERS_SRC = REPO / "src" / "psd_tools" / "api" / "layers.py"
+
+
+def read_pair_slots():
+    """The (record, channel list) PAIRS of the tree: the model treats a record and its channel list as one payload id,
+    i.e. it assumes the four slots `_record` / `_channels` / `_bounding_record` / `_bounding_channels` are filled with
+    the objects handed in, unmodified, and flattened in parallel.  From the AST of api/layers.py and api/psd_image.py:
+      stores   every `self.<slot> = <expr>`                       -> (function, slot, expression text)
+      calls    every `<x>._set_bounding_records(<args>)`          -> (calling function, argument text)
+      appends  every `<list>.append(<expr>)` of `_build_record_tree` -> (list name, expression text), in source order
+    Never raises: whatever cannot be read yields one sentinel row."""
+    out = {"stores": [], "calls": [], "appends": []}
+    try:
+        for path in (LAYERS_SRC, SRC):
+            tree = ast.parse(path.read_text())
+            mod = path.name
+
+            def visit(node, qual):
+                for ch in ast.iter_child_nodes(node):
+                    if isinstance(ch, (ast.FunctionDef, ast.AsyncFunctionDef, ast.ClassDef)):
+                        visit(ch, (qual + "." if qual else "") + ch.name)
+                        continue
+                    for n in ([ch] + [x for x in ast.walk(ch) if x is not ch and not isinstance(x, (ast.FunctionDef, ast.ClassDef))]):
+                        if isinstance(n, (ast.Assign, ast.AnnAssign)) and getattr(n, "value", None) is not None:
+                            tg = n.targets if isinstance(n, ast.Assign) else [n.target]
+                            for t in tg:
+                                for el in (t.elts if isinstance(t, (ast.Tuple, ast.List)) else [t]):
+                                    if isinstance(el, ast.Attribute) and isinstance(el.value, ast.Name) and \
+                                            el.value.id == "self" and el.attr in PAIR_ATTRS:
+                                        out["stores"].append((n.lineno, qual, el.attr, ast.unparse(n.value)))
+                        elif isinstance(n, ast.Call) and isinstance(n.func, ast.Attribute):
+                            if n.func.attr == "_set_bounding_records":
+                                args = [ast.unparse(a) for a in n.args] + ["%s=%s" % (k.arg, ast.unparse(k.value)) for k in n.keywords]
+                                out["calls"].append((n.lineno, qual, ", ".join(args)))
+                            elif n.func.attr == "append" and qual.split(".")[-1] == "_build_record_tree" and \
+                                    isinstance(n.func.value, ast.Name) and mod == "psd_image.py":
+                                out["appends"].append((n.lineno, n.func.value.id, ", ".join(ast.unparse(a) for a in n.args)))
+            visit(tree, "")
+            for k in out:               # source order within the file; files in the order above
+                out[k] = [r for r in out[k] if not isinstance(r[0], int)] + [tuple(r[1:]) for r in sorted(r for r in out[k] if isinstance(r[0], int))]
+    except Exception as e:  # noqa
+        out["stores"].append((MISSING, MISSING, "%s: %s" % (type(e).__name__, str(e)[:60])))
+    for k in out:
+        if not out[k]:
+            out[k].append((MISSING,) * (3 if k == "stores" else 2))
+    return out
+
+
 def _strs(xs):
     return "[" + ", ".join(lean_str(x) for x in xs) + "]"
+
+
+def _tuples(rows):
+    return "[" + ",\n  ".join("(" + ", ".join(lean_str(x) for x in r) + ")" for r in rows) + "]"
 
 
 def gen_tree_kinds(ctx):
     info = read_init()
     reg = read_registry()
     reads = read_dispatch_reads()
+    pairs = read_pair_slots()
     for m in info["missing"]:
         ctx.notes.append("extract_c08: " + m + " (sentinel written, the tying theorem fails)")
     try:
@@ -353,7 +407,15 @@ def dispatchTags : List String := {_strs(reads["tags"])}
     anything here can make the kind of a record depend on records seen before -/
 def dispatchState : List String := {_strs(reads["state"])}
 
+/-- the (record, channel list) pairs: every `self.<slot> = <expr>` of api/layers.py / api/psd_image.py for the slots
+    `_record`, `_channels`, `_bounding_record`, `_bounding_channels`: (function, slot, expression) -/
+def pairStores : List (String × String × String) := {_tuples(pairs["stores"])}
+/-- every call of `_set_bounding_records`: (calling function, arguments) -/
+def pairCalls : List (String × String) := {_tuples(pairs["calls"])}
+/-- the `append`s of `_build_record_tree` in source order: (list, expression) -/
+def flattenAppends : List (String × String) := {_tuples(pairs["appends"])}
+
 end PsdVerif.Generated.TreeKinds
 """
     ctx.write_generated("TreeKinds", src)
-    return {"init": info, "registry": reg, "reads": reads}
+    return {"init": info, "registry": reg, "reads": reads, "pairs": pairs}
